@@ -1,4 +1,5 @@
 import PkLA.SpectralRadius
+import PkLA.Lmi
 import Pk.FitLoop
 import Mathlib.LinearAlgebra.Matrix.NonsingularInverse
 /-! # C09 — Spectral-radius-constrained fits respect the requested bound
